@@ -268,6 +268,9 @@ func ReplayC10(v *explore.Violation) (bool, string) {
 // RunC10: sub-deck enumeration through the narrow seam, then every street of every hand of the play grid.
 func RunC10(rep *explore.Report, tier string) {
 	rep.Set("rule", "(a) for each sub-deck every hole/board split of every subset of the listed sizes, through NewGame + UpdateCombinationOfAllPlayers; (b) every seat at every state with community cards of the play grid, and every showdown re-settled with the reference strengths; oracle refBest/refEval; distinct_nontrivial = hole/board situations evaluated through the narrow seam")
+	if RunScenes(rep, tier, Visitors["C10"], GridOpts{Property: "C10"}) {
+		return
+	}
 	runSubdecks(rep, tier)
 	grid := PlayGrid(tier)
 	if tier != "thorough" {
